@@ -4,56 +4,18 @@
 
 // failed check (?): 
 #[test]
-fn kani_concrete_playback_pred_13971180449818925266() {
+fn kani_concrete_playback_pred_1195135605821165807() {
     let concrete_vals: Vec<Vec<u8>> = vec![
-        // 9080136379161154567ul
-        vec![7, 148, 0, 160, 237, 31, 3, 126],
-        // 9161447541799517695ul
-        vec![255, 253, 85, 245, 255, 255, 35, 127],
-        // 9160954881312329749ul
-        vec![21, 144, 0, 128, 237, 63, 34, 127],
+        // 0ul
+        vec![0, 0, 0, 0, 0, 0, 0, 0],
+        // 9223372036854775808ul
+        vec![0, 0, 0, 0, 0, 0, 0, 128],
+        // 9223372036854775808ul
+        vec![0, 0, 0, 0, 0, 0, 0, 128],
         // 1
         vec![1],
-        // 1ul
-        vec![1, 0, 0, 0, 0, 0, 0, 0],
-        // 3ul
-        vec![3, 0, 0, 0, 0, 0, 0, 0],
-    ];
-    kani::concrete_playback_run(concrete_vals, crate::c04::q::n2_u2p63::pred);
-}
-
-// failed check (?): 
-#[test]
-fn kani_concrete_playback_pred_16477672854612268832() {
-    let concrete_vals: Vec<Vec<u8>> = vec![
-        // 6917529027641081872ul
-        vec![16, 0, 0, 0, 0, 0, 0, 96],
-        // 9223372036854775808ul
-        vec![0, 0, 0, 0, 0, 0, 0, 128],
-        // 4611686018427387905ul
-        vec![1, 0, 0, 0, 0, 0, 0, 64],
-        // 0
-        vec![0],
-        // 1ul
-        vec![1, 0, 0, 0, 0, 0, 0, 0],
-    ];
-    kani::concrete_playback_run(concrete_vals, crate::c04::q::n2_u2p63::pred);
-}
-
-// failed check (?): 
-#[test]
-fn kani_concrete_playback_pred_4063313081621584745() {
-    let concrete_vals: Vec<Vec<u8>> = vec![
-        // 9223372036854775808ul
-        vec![0, 0, 0, 0, 0, 0, 0, 128],
-        // 9223372036854775808ul
-        vec![0, 0, 0, 0, 0, 0, 0, 128],
-        // 9223372036854776321ul
-        vec![1, 2, 0, 0, 0, 0, 0, 128],
-        // 0
-        vec![0],
-        // 2ul
-        vec![2, 0, 0, 0, 0, 0, 0, 0],
+        // 0ul
+        vec![0, 0, 0, 0, 0, 0, 0, 0],
         // 4ul
         vec![4, 0, 0, 0, 0, 0, 0, 0],
     ];
@@ -62,14 +24,34 @@ fn kani_concrete_playback_pred_4063313081621584745() {
 
 // failed check (?): 
 #[test]
-fn kani_concrete_playback_pred_14531709990743976570() {
+fn kani_concrete_playback_pred_12118164697878445900() {
+    let concrete_vals: Vec<Vec<u8>> = vec![
+        // 32ul
+        vec![32, 0, 0, 0, 0, 0, 0, 0],
+        // 9223372036854775808ul
+        vec![0, 0, 0, 0, 0, 0, 0, 128],
+        // 9223372036854775809ul
+        vec![1, 0, 0, 0, 0, 0, 0, 128],
+        // 1
+        vec![1],
+        // 0ul
+        vec![0, 0, 0, 0, 0, 0, 0, 0],
+        // 4ul
+        vec![4, 0, 0, 0, 0, 0, 0, 0],
+    ];
+    kani::concrete_playback_run(concrete_vals, crate::c04::q::n2_u2p63::pred);
+}
+
+// failed check (?): 
+#[test]
+fn kani_concrete_playback_pred_7316307893115319372() {
     let concrete_vals: Vec<Vec<u8>> = vec![
         // 9223372036854775808ul
         vec![0, 0, 0, 0, 0, 0, 0, 128],
         // 9223372036854775808ul
         vec![0, 0, 0, 0, 0, 0, 0, 128],
-        // 13835198790086165378ul
-        vec![130, 3, 0, 96, 255, 127, 0, 192],
+        // 0ul
+        vec![0, 0, 0, 0, 0, 0, 0, 0],
         // 0
         vec![0],
         // 2ul
